@@ -1,4 +1,5 @@
 """dbgcommon.py — shared correspondence loop for debugger sessions (DBG cases)."""
+import random, re
 import dbggen
 from core import log
 
@@ -9,6 +10,8 @@ def compare(a, b):
         return "missing result"
     fa, ea = dbggen.decode_lines(a)
     fb, eb = dbggen.decode_lines(b)
+    if fb == [8]:
+        return None          # script text outside the domain of DebugText.v (a line that leaves the process)
     if fa == [9] or fb == [9]:
         return None if fa == fb else "assemble/load verdict differs"
     sa, sb = dbggen.split_first(fa), dbggen.split_first(fb)
@@ -26,7 +29,7 @@ def compare(a, b):
     return None
 
 
-def run_dbg_cases(ctx, cases, tags, violations, profiles=("debug",), limit=10, note="", extra=None):
+def run_dbg_cases(ctx, cases, tags, violations, profiles=("debug",), limit=10, note="", extra=None, text_too=True):
     evaluations, mismatches, skipped = 0, 0, 0
     sigs, samples, hist = set(), [], {}
     vkeys = set()
@@ -72,12 +75,68 @@ def run_dbg_cases(ctx, cases, tags, violations, profiles=("debug",), limit=10, n
                                "implementation_stderr": dbggen.decode_lines(a)[1], "model_stderr": eb,
                                "format": "kind code pc cc r0..r7 nout out.. inpleft nmem (a v).. ticks execs cmds attached nbps (a p)..; then 7e + stderr line",
                                "note": note})
+    text_stats = None
+    if text_too:
+        # the same sessions with the script handed to the MODEL as text too (DebugText.v: readers + command parser
+        # + debugger), so that the python-side encoding of commands is not part of what is trusted
+        vr = random.Random(ctx.seed * 7919 + len(cases))
+        tcases = [text_twin(c) for c in cases]
+        ttags = list(tags)
+        modes = {"twin": len(cases)}
+        for ci, c in enumerate(cases):
+            if c.startswith("DBG "):
+                v, mode = text_variant(vr, c)
+                tcases.append(v); ttags.append(tags[ci]); modes[mode] = modes.get(mode, 0) + 1
+        ri, rm, crashes = ctx.run_both(tcases, profile=profiles[0], tag="dbgt")
+        n, bad, outside = 0, 0, 0
+        for c in crashes:
+            idx = c.get("case_index")
+            violations.append({"kind": "implementation-does-not-terminate" if c.get("hung") else "implementation-crashed",
+                               "profile": profiles[0], "case": tcases[idx] if idx is not None else None, "detail": c["tail"]})
+        for ci, (a, b) in enumerate(zip(ri, rm)):
+            if a is None:
+                continue
+            n += 1
+            if b and b[0].split() == ["8"]:
+                outside += 1
+            why = compare(a, b)
+            if why is None:
+                continue
+            bad += 1
+            key = ("text", ttags[ci], why)
+            if str(key) in vkeys or len(vkeys) >= limit:
+                continue
+            vkeys.add(str(key))
+            violations.append({"kind": "model-vs-implementation", "why": why, "profile": profiles[0], "tag": ttags[ci] + ":text",
+                               "case": tcases[ci], "implementation": a, "model": b,
+                               "implementation_stderr": dbggen.decode_lines(a)[1], "model_stderr": dbggen.decode_lines(b)[1],
+                               "format": "DBGT case: the model parses the script text itself (DebugText.v)", "note": note})
+        evaluations += n
+        mismatches += bad
+        text_stats = {"sessions_with_script_as_text": n, "outside_domain": outside, "mismatches": bad, "transport": modes,
+                      "rule": "every session twice more with the script given to the MODEL as text (DebugText.v): once verbatim in --command, once respelled (aliases, letter case, radix/sign spellings of every number), with rejected lines interleaved, through --command / stdin / split across both"}
     return dict(evaluations=evaluations, sigs=sigs, samples=samples, hist=hist, mismatches=mismatches,
-                skipped_budget=skipped, results=results)
+                skipped_budget=skipped, results=results, text=text_stats)
+
+
+def text_twin(case):
+    """DBG case -> DBGT case: same program, input and script text (as the `--command` argument), no encoded commands."""
+    t = case.split()
+    assert t[0] == "DBG"
+    x = [int(v, 16) for v in t[1:]]
+    i = 2
+    nsrc = x[i]; i += 1 + nsrc
+    ninp = x[i]; i += 1 + ninp
+    ntext = x[i]; text = x[i + 1:i + 1 + ntext]
+    nums = x[:i] + [1, ntext] + text + [0]
+    return "DBGT " + " ".join(f"{v:x}" for v in nums)
 
 
 def replay_dbg(ctx, payload):
     case = payload["case"]
+    if case is None:
+        log("no case recorded")
+        return 1
     ri, rm, _ = ctx.run_both([case], profile=payload.get("profile", "debug"), tag="replay")
     for l in ri[0] or []:
         log("implementation : " + l)
@@ -103,6 +162,7 @@ def coverage(r, rule, profiles, **more):
         "evaluations": r["evaluations"], "distinct_nontrivial": len(r["sigs"]), "rule": rule,
         "stop_kind_histogram": r["hist"], "samples": r["samples"], "mismatches": r["mismatches"],
         "skipped_for_budget": r["skipped_budget"], "profiles": list(profiles),
+        "script_as_text": r.get("text"),
     }
     cov.update(more)
     return cov
@@ -111,3 +171,122 @@ def coverage(r, rule, profiles, **more):
 def impl_fields(lines):
     f, e = dbggen.decode_lines(lines)
     return (dbggen.split_first(f) if f != [9] else None), e
+
+
+# ---------------------------------------------------------------- script text variants (DBGT)
+
+ALIASES = {
+    "help": ["h", "help", "--help", "-h", ":h", "man", "info", "wtf"],
+    "continue": ["c", "continue", "cont"],
+    "print": ["p", "print"], "move": ["m", "move"], "registers": ["r", "registers", "reg"],
+    "goto": ["g", "goto"], "assembly": ["a", "assembly", "asm"], "eval": ["e", "eval", "evil", "evaluate"],
+    "reset": ["z", "reset"], "echo": ["echo"], "quit": ["q", "quit"], "exit": ["x", "exit", ":q", ":wq", "^C"],
+    "step": ["step", "s"],
+    "step into": ["si", "stepinto", "step into", "step i", "s i", "s into"],
+    "step out": ["so", "stepout", "step out", "s o", "step o"],
+    "break list": ["bl", "breaklist", "break list", "b l", "break l", "b list"],
+    "break add": ["ba", "breakadd", "break add", "b a", "b add"],
+    "break remove": ["br", "breakremove", "break remove", "b r", "b remove"],
+}
+JUNK = ["bogus", "prnt r0", "print r8", "print r0 r1", "move r1", "move r1 x10000", "move r1 -32769", "goto", "goto r1",
+        "step in", "break", "break ad x3000", "b", "stepinto -1", "si x", "print 0x", "print ^", "p ^+", "goto ^x8000",
+        "move nolabel+1 1", "assembly 1 2", "eval", "echo", "registers now", "quit now", "x x", "continue 1", "p lbl+",
+        "print b+2", "goto x80000000g", "print 2147483648", "m r0 0b102", "g \u00e9", "print \U0001F600", "print r1+2", "  ", "",
+        "help me", "p #-0", "p -#0", "p x-0", "p 00", "p 0x0", "p 0o7", "p o8", "move r0 --1", "move r0 +-1", "p -", "p +", "p #", "p ^^"]
+
+
+def respell_int(rnd, tok):
+    """A hexadecimal token xH (as the generators write it) in another radix/prefix spelling with the same value."""
+    m = re.fullmatch(r"x([0-9A-Fa-f]+)", tok)
+    if not m:
+        return tok
+    v = int(m.group(1), 16)
+    forms = ["x%X" % v, "x%x" % v, "0x%x" % v, "X%X" % v, "#%d" % v, "%d" % v, "0%d" % v if v else "0", "o%o" % v, "0o%o" % v,
+             "b%s" % bin(v)[2:], "0b%s" % bin(v)[2:], "+%d" % v, "+x%x" % v, "x+%x" % v, "#+%d" % v]
+    if 0x8000 <= v <= 0xFFFF:
+        forms += ["-%d" % (0x10000 - v), "-x%x" % (0x10000 - v), "x-%x" % (0x10000 - v), "#-%d" % (0x10000 - v)]
+    return rnd.choice(forms)
+
+
+def respell_line(rnd, line):
+    t = line.split(" ")
+    t = [w for w in t if w != ""]
+    if not t:
+        return line
+    two = " ".join(t[:2]).lower()
+    if two in ALIASES:
+        head, rest = rnd.choice(ALIASES[two]), t[2:]
+    elif t[0].lower() in ALIASES:
+        head, rest = rnd.choice(ALIASES[t[0].lower()]), t[1:]
+    else:
+        return line
+    if t[0].lower() in ("eval", "echo"):
+        return head + " " + " ".join(rest)
+    if rnd.random() < 0.4:
+        head = "".join(c.upper() if rnd.random() < 0.5 else c for c in head)
+    out = []
+    for w in rest:
+        m = re.fullmatch(r"\^(-?)(\d+)", w)
+        if m:           # ^N as written by render_mem
+            n = int(m.group(2))
+            sign = m.group(1)
+            body = rnd.choice(["%d" % n, "x%x" % n, "#%d" % n, "0x%X" % n, "o%o" % n])
+            w = "^" + (sign if sign else rnd.choice(["", "+"])) + body
+            if n == 0 and rnd.random() < 0.3:
+                w = "^"
+        else:
+            m = re.fullmatch(r"([A-Za-z_][A-Za-z0-9_]*)([+-])(\d+)", w)
+            if m and not re.fullmatch(r"[rR][0-7]", m.group(1)):
+                n = int(m.group(3))
+                w = m.group(1) + m.group(2) + rnd.choice(["%d" % n, "x%x" % n, "#%d" % n, "0x%X" % n])
+            else:
+                w = respell_int(rnd, w)
+                if re.fullmatch(r"r[0-7]", w) and rnd.random() < 0.3:
+                    w = w.upper()
+        out.append(w)
+    sep = rnd.choice([" ", " ", "  ", "   "])
+    return rnd.choice(["", "", " "]) + sep.join([head] + out) + rnd.choice(["", "", " "])
+
+
+def uses_console_input(src, text):
+    low = (src + "\n" + text).lower()
+    return bool(re.search(r"\b(getc|in|trap)\b", low))
+
+
+def text_variant(rnd, case):
+    """DBG case -> DBGT case whose script text is respelled (aliases, letter case, radix/sign spellings of every number),
+    interleaved with lines the parser rejects, and handed over through --command, through stdin, or split across both.
+    Both sides parse the text themselves; the commands encoded in the DBG case are not used."""
+    t = case.split()
+    x = [int(v, 16) for v in t[1:]]
+    i = 2
+    nsrc = x[i]; src = "".join(map(chr, x[i + 1:i + 1 + nsrc])); i += 1 + nsrc
+    ninp = x[i]; i += 1 + ninp
+    ntext = x[i]; text = "".join(map(chr, x[i + 1:i + 1 + ntext]))
+    lines = [l for l in re.split(r"[;\n]", text) if l.strip()]
+    out = []
+    for k, l in enumerate(lines):
+        if rnd.random() < 0.25 and not (ninp and k == len(lines) - 1 and False):
+            out.append(rnd.choice(JUNK))
+        out.append(respell_line(rnd, l))
+    if not ninp and rnd.random() < 0.3:
+        out.append(rnd.choice(JUNK))
+    parts = []
+    for l in out:
+        parts.append(l)
+        parts.append(rnd.choice([";", "\n", "; ", " ;", "\n\n", ";;", "\n;"]))
+    mode = "arg"
+    if ninp == 0 and not uses_console_input(src, text):
+        mode = rnd.choice(["arg", "stdin", "split", "split"])
+    if mode == "arg":
+        arg, stdin, has = "".join(parts), "", 1
+    elif mode == "stdin":
+        arg, stdin, has = "", "".join(parts), 0
+    else:
+        cut = rnd.randrange(0, len(out) + 1) * 2
+        arg, stdin, has = "".join(parts[:cut]), "".join(parts[cut:]), 1
+        if arg and rnd.random() < 0.5:
+            arg = arg.rstrip(";\n ")          # the argument need not end with a separator
+    a = [ord(c) for c in arg]; sd = [ord(c) for c in stdin]
+    nums = x[:i] + [has, len(a)] + a + [len(sd)] + sd
+    return "DBGT " + " ".join(f"{v:x}" for v in nums), mode
